@@ -224,6 +224,12 @@ bool XmlNode::isComment() const
 
 std::string XmlNode::name() const
 {
+    // Note: some nodes (e.g., a CDATA section) have no name.
+
+    if (mPimpl->mXmlNodePtr->name == nullptr) {
+        return {};
+    }
+
     return reinterpret_cast<const char *>(mPimpl->mXmlNodePtr->name);
 }
 
